@@ -42,6 +42,7 @@ type World struct {
 	Pending      map[int]int  // queued extensions per channel
 	Gone         map[int]int  // request number -> channel index, for requests whose channel was cleaned up
 	EverQueued   map[int]int  // extensions ever queued on the channel since its last cleanup (residue-sensitive part of the key)
+	StoreCalls   map[int]int  // UseStore calls on the channel since its last cleanup (residue-sensitive part of the key)
 	nextIn       int
 	Shutdown     bool
 }
@@ -55,7 +56,7 @@ func RootLink() ipld.Link { return root() }
 // ch2: C responds to self's push, i.e. C requests data from self with a response extension ({A,C,3}).
 func NewWorld() *World {
 	w := &World{GS: doubles.NewFakeGS(), H: &doubles.RecHandler{}, Owner: map[int]int{}, Current: map[int]int{}, Store: map[int]bool{}, Cleaned: map[int]bool{},
-		ReqCancelled: map[int]bool{}, Pending: map[int]int{}, Gone: map[int]int{}, EverQueued: map[int]int{}}
+		ReqCancelled: map[int]bool{}, Pending: map[int]int{}, Gone: map[int]int{}, EverQueued: map[int]int{}, StoreCalls: map[int]int{}}
 	w.T = dtgs.NewTransport(doubles.PeerA, w.GS)
 	if err := w.T.SetEventHandler(w.H); err != nil {
 		panic(err)
@@ -165,7 +166,7 @@ func (w *World) Key() string {
 				fin += "o"
 			}
 		}
-		parts = append(parts, fmt.Sprintf("c%d[cur=%v n=%d %s st=%v cl=%v rc=%v pe=%d eq=%d]", i, w.Current[i] >= 0, len(reqs), fin, w.Store[i], w.Cleaned[i], w.ReqCancelled[i], w.Pending[i], min(w.EverQueued[i], 2)))
+		parts = append(parts, fmt.Sprintf("c%d[cur=%v n=%d %s st=%v cl=%v rc=%v pe=%d eq=%d us=%d]", i, w.Current[i] >= 0, len(reqs), fin, w.Store[i], w.Cleaned[i], w.ReqCancelled[i], w.Pending[i], min(w.EverQueued[i], 2), min(w.StoreCalls[i], 2)))
 	}
 	g := [4]int{}
 	for _, ci := range w.Gone {
